@@ -538,6 +538,15 @@ def hyp_phase(ctx):
     ctx.run_hypothesis(strategy(ctx.params["max_ops"]), check_trace, "trace", ctx.params["max_examples"])
 
 
+def fuzz_phase(ctx):
+    from vfw import fuzz
+
+    if not fuzz.available():
+        ctx.notes.append("atheris not installed next to /venv (setup.sh installs it into /verif/.deps): campaign skipped")
+        return
+    fuzz.campaign(ctx, strategy(ctx.params["max_ops"]), check_trace, "trace", ctx.params["runs"], [])
+
+
 def phases(tier):
     if tier == "quick":
         return [
@@ -545,8 +554,9 @@ def phases(tier):
             Phase("enum", enum_phase, shards=2, params={"depth": 2, "budget_s": 60}),
         ]
     return [
-        Phase("hyp", hyp_phase, shards=16, params={"max_examples": 12000, "max_ops": 30, "budget_s": 420}),
+        Phase("hyp", hyp_phase, shards=16, params={"max_examples": 8000, "max_ops": 30, "budget_s": 300}),
         Phase("enum", enum_phase, shards=16, params={"depth": 3, "budget_s": 540}),
+        Phase("atheris", fuzz_phase, shards=8, params={"max_ops": 30, "runs": 40000, "budget_s": 200, "instrument": ["cobra.core.dictlist"]}),
     ]
 
 
